@@ -55,6 +55,7 @@ class _FnScan(ast.NodeVisitor):
         if a.kwarg:
             self.params.add(a.kwarg.arg)
         self.globals_decl = set()
+        self.mutable_defaults = set()
         self.local_assigns = {}  # local name -> list of value nodes (None = bound by something opaque)
         self.sites = []  # (lineno, description)
         self._collect_bindings(fn)
@@ -104,6 +105,8 @@ class _FnScan(ast.NodeVisitor):
     def _global_rooted(self, name, depth=0):
         """name denotes (a part of) module-level state"""
         if name in self.globals_decl:
+            return True
+        if name in self.mutable_defaults and name not in self.local_assigns:
             return True
         if name in self.params:
             return False
@@ -157,7 +160,24 @@ class _FnScan(ast.NodeVisitor):
                 # results, their later mutations) are shared between calls
                 self.sites.append((self.fn.lineno, f"memoising decorator @{txt[:40]}: results are shared between calls",
                                    "__decorator__"))
+        # parameters whose default is a mutable object created once at definition time (`def f(x, memo={})`): a store
+        # through such a parameter writes state that outlives the call exactly like a module-level container
+        a = self.fn.args
+        pos = a.posonlyargs + a.args
+        for prm, dflt in list(zip(pos[len(pos) - len(a.defaults):], a.defaults)) + \
+                [(k, d) for k, d in zip(a.kwonlyargs, a.kw_defaults) if d is not None]:
+            if isinstance(dflt, (ast.Dict, ast.List, ast.Set, ast.ListComp, ast.DictComp, ast.SetComp)) or \
+                    (isinstance(dflt, ast.Call) and ast.unparse(dflt.func) in ("dict", "list", "set", "bytearray", "defaultdict",
+                                                                               "collections.defaultdict", "OrderedDict")):
+                self.mutable_defaults.add(prm.arg)
         for node in ast.walk(self.fn):
+            if isinstance(node, ast.Call):
+                f = ast.unparse(node.func)
+                # output channels: C13 says constructing / parsing / serialising / printing messages writes nothing to
+                # stdout or stderr.  (The reader's error reporting through its logger is a different, specified channel.)
+                if f == "print" or f.startswith(("sys.stdout", "sys.stderr", "warnings.warn", "sys.__stdout__", "sys.__stderr__")) \
+                        or f in ("pprint", "pprint.pprint", "traceback.print_exc", "traceback.print_stack"):
+                    self.sites.append((node.lineno, f"output call {f}(...)", "__output__"))
             if isinstance(node, ast.Assign):
                 for t in node.targets:
                     self._store(t, node, "assignment")
@@ -249,7 +269,7 @@ def _module_aliases(tree):
 
 
 def scan_package():
-    """-> [(qualname, lineno, [(site description, touches a shared table), ...])] for every function of the package"""
+    """-> [(qualname, lineno, [(site description, kind: table | state | output), ...])] for every function of the package"""
     pkgdir = os.path.join(extract.REPO_SRC, "pyubx2")
     tables = table_roots()
     out = []
@@ -267,7 +287,8 @@ def scan_package():
             for child in ast.iter_child_nodes(node):
                 if isinstance(child, (ast.FunctionDef, ast.AsyncFunctionDef)):
                     q = f"{prefix}.{child.name}"
-                    out.append((q, child.lineno, [(f"line {ln}: {d}", origin in troots)
+                    out.append((q, child.lineno, [(f"line {ln}: {d}", "output" if origin == "__output__" else
+                                                   ("table" if origin in troots else "state"))
                                                   for ln, d, origin in _FnScan(child, mnames).scan()]))
                     walk(child, q)
                 elif isinstance(child, ast.ClassDef):
@@ -289,12 +310,15 @@ def frame_scan(ctx=None, prop="C13"):
     res = scan_package()
     assert res, "no functions found"
     for q, ln, sites in res:
-        table = any(t for _, t in sites)
+        if prop != "C13":
+            sites = [x for x in sites if x[1] != "output"]  # output channels are C13's subject only
+        confirmed = prop == "C13" and any(k in ("table", "output") for _, k in sites)
         yield (f"frame[{q}]", not sites,
-               "no store, del or mutating container call whose target is rooted at a module-level name"
-               + (": " + "; ".join(d for d, _ in sites) if sites else ""),
-               {"function": q, "line": ln, "sites": [d for d, _ in sites], "shared_table": table,
-                "_unconfirmed": bool(sites) and not (prop == "C13" and table)})
+               "no store, del or mutating container call rooted at a module-level name, no memoising decorator, no write "
+               "to stdout / stderr" + (": " + "; ".join(d for d, _ in sites) if sites else ""),
+               {"function": q, "line": ln, "sites": [d for d, _ in sites],
+                "shared_table": any(k == "table" for _, k in sites),
+                "_unconfirmed": bool(sites) and not confirmed})
 
 
 def replay_frame(o):
